@@ -1,8 +1,11 @@
 """C05 — see DESIGN.md §4."""
 from ..spec import run_specs
+from ..guards import run_D5, run_X1
 
 EXPLANATION = 'The pointer-encoding validator accepts only formats/applications that the decoder handles (X1 as sets over all encodings); every successful FDE lookup return is dominated by a `contains(address)` test; CIE/FDE prefix and encoded-value readers consume the reviewed field sequences. Completeness of lookups (binary search correctness) is NOT decided.'
 
 
 def run(rep, ctx):
     run_specs(rep, ctx, 'C05')
+    run_D5(rep, ctx.g)
+    run_X1(rep, ctx.g)
